@@ -132,6 +132,10 @@ def visible_records(decoded, isolation, upto=None):
     return out
 
 
+class InjectedDeserializerError(Exception):
+    """raised by the harness' own value deserializer (cfg deser_fail)"""
+
+
 class Obs:
     def __init__(self):
         self.events = []        # observation list (dicts), in return order
@@ -144,6 +148,7 @@ class Obs:
         self.vtime = 0.0
         self.final = {}         # tp key -> dict(decoded, hw, lso, log_start, end)
         self.seek_inflight = 0
+        self.deser_failures = []
         self.exc_log = []
         self.stop_returned = None
         self.tasks_hung = False
@@ -226,6 +231,27 @@ async def _main(case, obs, loop, net):
               fetch_max_wait_ms=cfg.get("fetch_max_wait_ms", 100), fetch_max_bytes=cfg.get("fetch_max_bytes", 52428800),
               request_timeout_ms=cfg.get("request_timeout_ms", 400), retry_backoff_ms=cfg.get("retry_backoff_ms", 20),
               metadata_max_age_ms=cfg.get("metadata_max_age_ms", 2000), max_poll_records=cfg.get("max_poll_records"))
+    df = cfg.get("deser_fail")
+    if df:
+        # the application's value deserializer raises the first time it sees certain records (a poison message that
+        # the application handles and polls again): whatever was not handed out has to come again, nothing is lost
+        seen = set()
+        obs.deser_failures = []
+
+        def deser(v):
+            if v is None:
+                return v
+            parts = v.split(b"-", 3)
+            try:
+                p, off = int(parts[1]), int(parts[2])
+            except Exception:
+                return v
+            if off % df["mod"] == df["rem"] and (p, off) not in seen:
+                seen.add((p, off))
+                obs.deser_failures.append((loop._vtime, p, off))
+                raise InjectedDeserializerError("poison record %d/%d" % (p, off))
+            return v
+        kw["value_deserializer"] = deser
     consumer = AIOKafkaConsumer(**kw)
     if cfg.get("mode", "assign") == "assign":
         consumer.assign(tps)
@@ -352,7 +378,7 @@ async def _main(case, obs, loop, net):
                     ev["fetch_in_flight"] = fetch_inflight(tp)
                     consumer.seek(tp, off)
                     ev["position_after"] = await consumer.position(tp)
-            except KafkaError as e:
+            except (KafkaError, InjectedDeserializerError) as e:
                 ev["error"] = (type(e).__name__, repr(e))
             except Exception as e:     # anything else escaping the consumer API is reported by the oracles
                 ev["error"] = (type(e).__name__, repr(e))
@@ -401,7 +427,7 @@ async def _main(case, obs, loop, net):
                 res = await consumer.getmany(timeout_ms=200)
         except Exception as e:
             ev["error"] = (type(e).__name__, repr(e))
-            ev["unexpected"] = not isinstance(e, KafkaError)
+            ev["unexpected"] = not isinstance(e, (KafkaError, InjectedDeserializerError))
             ev["records"] = []
             ev["t"] = loop._vtime
             obs.events.append(ev)
